@@ -659,6 +659,16 @@ func buildChunksGroup() ([]*target, error) {
 		m.Chunks[0] = hash.NewFromBytes(in)
 		return &m
 	}
+	// The restorer distinguishes "the bytes are not what the manifest promises" (ErrChunkCorrupted: the caller fetches
+	// the chunk again) from "the bytes ARE what the manifest promises but are unusable" (ErrChunkProofVerificationFailed:
+	// the restore is aborted and the checkpoint rejected). With the digest of the input listed in the manifest the first
+	// class is impossible; reporting it would make every caller fetch the same bytes again, for ever.
+	matching := func(o outcome, err error) outcome {
+		if err != nil && errors.Is(err, checkpoint.ErrChunkCorrupted) {
+			o.violSig, o.violMsg = "chunk-matching-manifest-reported-corrupted", "a chunk whose digest is exactly the one listed in the manifest was rejected as corrupted in transit (refetch) instead of aborting the restore: "+err.Error()
+		}
+		return o
+	}
 	plain := &target{
 		name: "chunk-restore", doc: "input = chunk 0 of a real restore in progress with the honest manifest: 0 digest mismatch, 1 digest ok but stream undecodable, 2 proof verification ran, 3 restored",
 		seeds: seeds[:1], wantDepth: 3, cborPercent: -1, weight: 1, // the digest check stops almost every mutant: the +digest variants carry the search
@@ -667,14 +677,18 @@ func buildChunksGroup() ([]*target, error) {
 	digest := &target{
 		name: "chunk-restore+digest", doc: "as chunk-restore, but the manifest of the (hostile) peer lists the digest of the input",
 		seeds: seeds, wantDepth: 2, cborPercent: -1,
-		run: func(in []byte) outcome { return chunkOutcome(f.restore(withDigest(in), 0, in)) },
+		run: func(in []byte) outcome {
+			done, err := f.restore(withDigest(in), 0, in)
+			return matching(chunkOutcome(done, err), err)
+		},
 	}
 	framed := &target{
 		name: "chunk-restore+snappy", doc: "input = the CBOR sequence of proof entries; the harness snappy-frames it and lists its digest: 1 stream undecodable, 2 proof verification ran, 3 restored",
 		seeds: rawSeeds, wantDepth: 2, seq: true, hostile: true,
 		run: func(in []byte) outcome {
 			c := snappyFrame(in)
-			o := chunkOutcome(f.restore(withDigest(c), 0, c))
+			done, err := f.restore(withDigest(c), 0, c)
+			o := matching(chunkOutcome(done, err), err)
 			o.note = "chunk=" + hexShort(c)
 			return o
 		},
